@@ -64,7 +64,24 @@ func buildNodes(reg *ProjectReg) map[string]*node {
 	mk("echo", func(n *node) { e := echo.New(); reg.Echo(e); n.h = e })
 	mk("mux", func(n *node) { r := mux.NewRouter(); reg.Mux(r); n.h = r })
 	mk("chi", func(n *node) { r := chi.NewRouter(); reg.Chi(r); n.h = r })
-	mk("fiber", func(n *node) { a := fiber.New(fiber.Config{DisableStartupMessage: true}); reg.Fiber(a); n.app = a })
+	mk("fiber", func(n *node) {
+		a := fiber.New(fiber.Config{DisableStartupMessage: true})
+		// fiber runs handlers on fasthttp's goroutine: an unrecovered panic there would kill the whole
+		// batch process. The harness records it as the request's outcome instead.
+		a.Use(func(c *fiber.Ctx) (err error) {
+			defer func() {
+				if r := recover(); r != nil {
+					if s := active; s != nil {
+						s.event("HandlerPanic", fmt.Sprint(r))
+					}
+					err = c.Status(599).SendString("handler panic")
+				}
+			}()
+			return c.Next()
+		})
+		reg.Fiber(a)
+		n.app = a
+	})
 	return out
 }
 
@@ -166,6 +183,8 @@ func outcomeOf(engine string, t *Task) Outcome {
 			var args []string
 			json.Unmarshal([]byte(rest), &args)
 			o.Calls = append(o.Calls, Call{Op: op, Args: args})
+		case "HandlerPanic":
+			o.Panic = e.Detail
 		case "AuthCheck":
 			authAsked = true
 		case "AuthResult":
@@ -182,7 +201,7 @@ func outcomeOf(engine string, t *Task) Outcome {
 	}
 	o.Body = body
 	switch {
-	case t.Panic != "":
+	case t.Panic != "" || o.Panic != "":
 		o.Class = "crashed"
 	case len(o.Calls) > 0:
 		o.Class = "invoked"
@@ -224,6 +243,8 @@ type Violation struct {
 	Outcomes  []Outcome  `json:"outcomes,omitempty"`
 	Dim        string    `json:"dim,omitempty"`        // C12: the dimension the replicas disagree on
 	Concurrent bool      `json:"concurrent,omitempty"` // reproduces only with the other requests in flight
+	// Broken: the (engine -> routes) pairs that were already excluded when this violation was found
+	Broken map[string][]int `json:"broken,omitempty"`
 }
 
 // shapeTags are the structural tags of the addressed route template (stable finding identity).
@@ -294,7 +315,22 @@ func (j *judge) isBroken(engine string, p *ReqPlan) bool {
 }
 
 func (j *judge) add(prop, sig, class, msg string, engine string, group []*ReqPlan, focus *ReqPlan, seed uint64, outs []Outcome) {
-	j.out = append(j.out, Violation{Property: prop, Signature: sig, Class: class, Message: msg, Project: j.tag, Engine: engine, Group: group, Focus: focus.ID, SchedSeed: seed, Outcomes: outs})
+	v := Violation{Property: prop, Signature: sig, Class: class, Message: msg, Project: j.tag, Engine: engine, Group: group, Focus: focus.ID, SchedSeed: seed, Outcomes: outs}
+	for e, rs := range j.broken {
+		for r := range rs {
+			if (class == "not-served" || class == "misrouted") && e == engine && r == focus.Expect.Route {
+				continue // this violation IS that pair's finding
+			}
+			if v.Broken == nil {
+				v.Broken = map[string][]int{}
+			}
+			v.Broken[e] = append(v.Broken[e], r)
+		}
+	}
+	for e := range v.Broken {
+		sort.Ints(v.Broken[e])
+	}
+	j.out = append(j.out, v)
 }
 
 func altKeys(rt projgen.Route) map[string]bool {
@@ -315,7 +351,8 @@ func (j *judge) judgePlan(plan *ReqPlan, o Outcome, group []*ReqPlan, seed uint6
 		}
 	}
 	if o.Class == "crashed" {
-		j.add("C02", "C02|"+o.Engine+"|handler-panic|"+plan.Class, "handler-panic", "the handler panicked: "+clip(o.Panic, 300), o.Engine, group, plan, seed, outs)
+		// a panicking handler is neither "422 without invoking the method" nor a delivered call
+		j.add("C05", "", "handler-panic", fmt.Sprintf("%s %s (%s): the generated handler panicked instead of answering: %s", plan.Verb, plan.URL, reqClass(plan), clip(o.Panic, 300)), o.Engine, group, plan, seed, outs)
 		return
 	}
 	// ---------------- C02: dispatch
@@ -816,6 +853,12 @@ func Main() {
 			}
 		}
 		if in.Replay != nil {
+			// restore exactly the exclusions that were in force when the violation was found
+			for e, rs := range in.Replay.Broken {
+				for _, r := range rs {
+					j.markBroken(e, r)
+				}
+			}
 			j.execGroup(nodes, in.Replay.Group, in.Replay.SchedSeed)
 		} else {
 			j.staticSpecCheck(bp)
